@@ -32,8 +32,11 @@ RULE = ("Hypothesis builds a whole model for a random target, selects 0..6 numer
 ASSUMPTIONS = [
     "a placeholder ${NAME} is never used inside a section that has an option called NAME itself (configparser "
     "resolves the section's own option first; the property does not say which a hand-substituter would take)",
+    "a bare ${KEY} that names an entry of the section it stands in, and no variable, is a reference to that entry "
+    "(the manual states that configparser's extended interpolation is what is used): generated inside [Tabulation] "
+    "(nrho : ${nr}) and [Species]",
 ]
-REQUIRED = {"lifted>=1": 100, "section_ref": 30, "unused_var": 60, "foreign_option_name": 40,
+REQUIRED = {"nested_placeholder": 20, "own_section_ref": 5, "lifted>=1": 100, "section_ref": 30, "unused_var": 60, "foreign_option_name": 40,
             "lift:Tabulation": 10, "lift:Pair": 15, "lift:Potential-Form": 5, "lift:Table-Form": 5, "lift:Species": 5}
 NUM = re.compile(r"(?<![\w.$\{:])-?\d+(?:\.\d+)?(?:e[+-]?\d+)?(?![\w.\}])")
 VAR_NAMES = ["v1", "alpha_v", "rho", "nsteps", "A_param", "cut2"]
@@ -42,21 +45,27 @@ FOREIGN = ["nr", "target", "x", "y", "interpolation", "cutoff", "nrho", "Al", "O
 
 
 @st.composite
-def _case(draw, targets=None):
+def _case(draw, targets=None, focus=None):
     m = draw(gen.any_model(targets, 1, 3, depth=1))
+    if m["kind"] != "pair" and (focus == "own" or draw(st.integers(0, 2)) == 0):
+        # equal grid numbers: one may be written as a reference to the other (${nr} inside [Tabulation])
+        m["grid"]["nrho"] = m["grid"]["nr"]
+        m["grid"]["cutoff_rho"] = m["grid"]["cutoff"]
     secs = anymodel.sections_of(m)
     spots = []
     for si, (n, ents) in enumerate(secs):
         for ei, (k, v) in enumerate(ents):
             for mt in NUM.finditer(v):
-                spots.append((si, ei, mt.start(), mt.end()))
+                if focus != "own" or n in ("Species", "Tabulation"):
+                    spots.append((si, ei, mt.start(), mt.end()))
     nl = draw(st.integers(0, min(6, len(spots))))
     chosen = sorted(draw(st.permutations(spots))[:nl]) if spots else []
     lifts = []
     for i, sp in enumerate(chosen):
-        kind = draw(st.sampled_from(["var", "var", "section"]))
+        kind = "own" if focus == "own" else draw(st.sampled_from(["var", "var", "section", "own"]))
         name = draw(st.sampled_from(VAR_NAMES + FOREIGN[:7])) + ("_%d" % i if draw(st.booleans()) else "")
-        lifts.append({"spot": list(sp), "kind": kind, "name": name})
+        # nested: the value the placeholder points at is itself written with a placeholder
+        lifts.append({"spot": list(sp), "kind": kind, "name": name, "nested": draw(st.integers(0, 3)) == 0})
     unused = draw(st.lists(st.tuples(st.sampled_from(FOREIGN + VAR_NAMES),
                                      st.sampled_from(["7", "0.25", "LAMMPS", "as.constant 1", "1 2 3 4", "cubic_spline"])),
                            min_size=0, max_size=3, unique_by=lambda t: t[0]))
@@ -68,7 +77,8 @@ def strategy(tier):
 
 
 def strata(tier):
-    return [("pair", _case(gen.PAIR_TARGETS), 4), ("eam", _case(sorted(gen.EAM_TARGETS)), 5)]
+    return [("pair", _case(gen.PAIR_TARGETS), 4), ("eam", _case(sorted(gen.EAM_TARGETS)), 5),
+            ("own_section", _case(sorted(gen.EAM_TARGETS), "own"), 2)]
 
 
 def budget(tier):
@@ -88,6 +98,7 @@ def build(case):
     constants = []
     species_extra = []
     cls = []
+    pinned = set()
     # apply lifts from the end of each value backwards so that spans stay valid
     for lf in sorted(case["lifts"], key=lambda l: (l["spot"][0], l["spot"][1], -l["spot"][2])):
         si, ei, a, b = lf["spot"]
@@ -97,13 +108,50 @@ def build(case):
         if v[a:b] != tok:
             return None
         name = lf["name"]
+        if (si, k) in pinned:
+            continue
         own = set("".join(kk.split()) for kk, _ in ents)
-        if lf["kind"] == "var":
-            if name in own or (name in variables and variables[name] != tok):
+        kind = lf["kind"]
+        stored = tok
+        if lf.get("nested"):
+            base = "%s_base%d" % (re.sub(r"\W", "_", name), a)
+            if base in own or (base in variables and variables[base] != tok):
                 return None
-            variables[name] = tok
+            variables[base] = tok
+            stored = "${%s}" % base
+            cls.append("nested_placeholder")
+        if kind == "own":
+            # a bare ${KEY} naming an entry of the SAME section (configparser looks there first); KEY is not a variable
+            ph = None
+            if n == "Species":
+                key = "Qq.%s" % re.sub(r"\W", "_", name)
+                if key in variables or any(c[0] == key and c[1] != stored for c in species_extra):
+                    return None
+                if not any(c[0] == key for c in species_extra):
+                    species_extra.append([key, stored])
+                ph = "${%s}" % key
+            elif n == "Tabulation":
+                current = dict((kk, vv) for kk, vv in ents)
+                for kk, vv in plain[si][1]:
+                    # the entry referred to stays a literal (no reference cycles)
+                    if kk != k and vv.strip() == tok and v[a:b] == v.strip() and kk not in variables \
+                            and current.get(kk) == vv and (si, k) not in pinned:
+                        ph = "${%s}" % kk
+                        pinned.add((si, kk))
+                        break
+            if ph is None:
+                kind = "var"
+            else:
+                cls.append("own_section_ref")
+        if kind == "own":
+            pass
+        elif kind == "var":
+            if name in own or (name in variables and variables[name] != stored):
+                return None
+            variables[name] = stored
             ph = "${%s}" % name
         else:
+            tok = stored
             if n == "Species" or lf["spot"][2] % 2:
                 key = "c_%s" % re.sub(r"\W", "_", name)
                 if any(c[0] == key and c[1] != tok for c in constants):
